@@ -226,15 +226,16 @@ def TrivialOK (c : Cfg) : Op → Prop
 theorem C10_recreateOK_trivial (c : Cfg) (w : World) (s W H al : Nat) (f a : Option Nat) (v : Nat)
     (htriv : ∀ o, c.orgOf s = some o → o.nontrivial = false ∧ (o.needed al W H = 0 → W * H = 0)) (h : Inv c w) :
     RecreateOK c w (.recreate s W H al f a v) := by
-  intro o i ho hs hge
+  intro o i ho hs
   obtain ⟨ht, hz⟩ := htriv o ho
-  refine ⟨fun hm => hz ?_, Or.inl ht⟩
+  refine ⟨fun hge => ⟨fun hm => hz ?_, Or.inl ht⟩, fun _ => hz⟩
   have := (h.nomem s i hs hm).1
   omega
 
 /-- for pixel images (trivially constructible elements) NO run-time side condition is left: from the empty world, every history of any
-    length whose recreate sizes do not wrap, under any allocation fault, keeps the invariant -/
-theorem C10_history_trivial_elements (c : Cfg) (hsafe : SwapSafe c) (ops : List Op) (hops : ∀ op ∈ ops, TrivialOK c op) :
+    length whose recreate sizes do not wrap, under any allocation fault, keeps the invariant.  (`keepDims = false`: the allocate_ of the
+    current tree; for the variant that keeps degenerate dimensions the constructors' no-wrap conditions of `RecreateOK` remain.) -/
+theorem C10_history_trivial_elements (c : Cfg) (hk : c.keepDims = false) (hsafe : SwapSafe c) (ops : List Op) (hops : ∀ op ∈ ops, TrivialOK c op) :
     ∀ (w : World), Inv c w → w.imgs tmpSlot = none → Inv c (run c w ops) := by
   induction ops with
   | nil => intro w h _; exact h
@@ -242,9 +243,10 @@ theorem C10_history_trivial_elements (c : Cfg) (hsafe : SwapSafe c) (ops : List 
     intro w h htmp
     have hok : RecreateOK c w op := by
       have ht := hops op (List.mem_cons_self)
-      cases op with
-      | recreate s W H al f a v => exact C10_recreateOK_trivial c w s W H al f a v ht h
-      | _ => trivial
+      refine recreateOK_of_not_keepDims hk w op ?_
+      intro s W H al f a v e o i ho hs
+      subst e
+      exact (C10_recreateOK_trivial c w s W H al f a v ht h o i ho hs).1
     have h1 := inv_step h htmp hsafe op hok
     have h2 := step_tmpfree c w op htmp
     unfold run
